@@ -78,7 +78,7 @@ func (x *Exec) special(st *State, in ssa.Instruction, key string, f *ssa.Functio
 		x.lockProtocol(st, in, false)
 		x.lockOp(st, in, p, false)
 		return nil, true
-	case "(*sync.WaitGroup).Add", "(*sync.WaitGroup).Done", "(*sync.WaitGroup).Wait":
+	case "(*sync.WaitGroup).Done", "(*sync.WaitGroup).Wait":
 		x.externsUsed["sync.WaitGroup (built-in: no effect on modelled state)"] = true
 		return nil, true
 	case "(*sync.Once).Do":
